@@ -808,3 +808,195 @@ Example C03_r3_nonvacuous :
   fbig_inv 10 2 MUp 7 0 = Ok (15, -2) /\ add_float_prim_vv_x 10 2 MHalfEven 15 (-1) 1234 Positive = (1236, 0) /\
   ctx_add_n_x 10 2 MHalfEven 99 0 5 (-1) = AInexact 1 2 AddOne /\ is_normal 10 95 0 = true /\ is_normal 10 100 0 = false.
 Proof. vm_compute. repeat split; discriminate. Qed.
+
+(* ================================================================== round 4 ================== *)
+(** the two findings about operands LONGER than the precision are repaired in float/src/{add,mul,div}.rs; the
+    models of the repaired code (Float/FixModel.v) meet the contract for operands of ANY length, and are the old
+    models wherever the old code was right *)
+From Dashu Require Import Float.NormalProof Float.FixModel Float.FixAddProof Float.FixMulDivProof.
+
+Theorem C03_round_sum_repaired : forall B, 2 <= B -> forall p m sig e low lp is_sub,
+  1 <= p -> 0 <= lp -> Z.abs low < B ^ lp -> (is_sub = false -> 0 <= sig * low) ->
+  exists a, repr_round_sum_fix B p m sig e low lp is_sub = Ok a /\
+            rounded_sum B p m (sig * B ^ lp + low) (e - lp) a.
+Proof. exact rrs_fix_correct. Qed.
+Print Assumptions C03_round_sum_repaired.
+
+Theorem C03_round_sum_loop_invariant : forall B, 2 <= B -> forall fuel p rp sig e low lp,
+  1 <= p -> p <= rp <= p + 1 -> dlen B sig <= rp -> 0 <= lp -> Z.abs low < B ^ lp -> lp < Z.of_nat fuel ->
+  (rp = p -> 0 <= sig * low) ->
+  exists s e' l k, expand_loop B fuel p rp sig e low lp (dlen B sig) = Some (s, e', l, k) /\
+    0 <= k /\ Z.abs l < B ^ k /\ sig * B ^ lp + low = s * B ^ k + l /\ e' - k = e - lp /\
+    (l <> 0 -> B ^ (p - 1 + k) <= Z.abs (s * B ^ k + l) < B ^ (p + 1 + k)).
+Proof. exact expand_loop_spec. Qed.
+Print Assumptions C03_round_sum_loop_invariant.
+
+Theorem C03_round_sum_break_test : forall B, 2 <= B -> forall p s l k, 1 <= p -> 0 <= k -> l <> 0 -> Z.abs l < B ^ k ->
+  (head_ok B p s l = true <-> B ^ (p - 1 + k) <= Z.abs (s * B ^ k + l)).
+Proof. exact head_ok_spec. Qed.
+Print Assumptions C03_round_sum_break_test.
+
+Theorem C03_round_sum_repair_is_conservative : forall B, 2 <= B -> forall p m sig e low lp is_sub,
+  1 <= p -> 0 <= lp -> Z.abs low < B ^ lp -> rrs_short B p sig low lp is_sub = false ->
+  repr_round_sum_fix B p m sig e low lp is_sub = Ok (repr_round_sum B p m sig e low lp is_sub).
+Proof. exact rrs_fix_eq_old. Qed.
+Print Assumptions C03_round_sum_repair_is_conservative.
+
+Theorem C03_add_repaired_any_length : forall B, 2 <= B -> forall digits_ub, (forall s, dlen B s <= digits_ub s) ->
+  forall p m s1 e1 s2 e2, 1 <= p -> operand_ok B p s1 -> operand_ok B p s2 ->
+  exists a, ctx_add_fix B digits_ub p m s1 e1 s2 e2 = Ok a /\
+            rounded_sum B p m (exact_sum B s1 e1 s2 e2 Positive) (Z.min e1 e2) a.
+Proof. exact ctx_add_fix_correct. Qed.
+Print Assumptions C03_add_repaired_any_length.
+
+Theorem C03_sub_repaired_any_length : forall B, 2 <= B -> forall digits_ub, (forall s, dlen B s <= digits_ub s) ->
+  forall p m s1 e1 s2 e2, 1 <= p -> operand_ok B p s1 -> operand_ok B p s2 ->
+  exists a, ctx_sub_fix B digits_ub p m s1 e1 s2 e2 = Ok a /\
+            rounded_sum B p m (exact_sum B s1 e1 s2 e2 Negative) (Z.min e1 e2) a.
+Proof. exact ctx_sub_fix_correct. Qed.
+Print Assumptions C03_sub_repaired_any_length.
+
+Theorem C03_add_sub_repair_is_conservative : forall B, 2 <= B -> forall digits_ub, (forall s, dlen B s <= digits_ub s) ->
+  forall p m s1 e1 s2 e2, 1 <= p ->
+  (add_short_class B p s1 e1 s2 e2 Positive = false ->
+   ctx_add_fix B digits_ub p m s1 e1 s2 e2 = Ok (ctx_add B digits_ub p m s1 e1 s2 e2)) /\
+  (add_short_class B p s1 e1 s2 e2 Negative = false ->
+   ctx_sub_fix B digits_ub p m s1 e1 s2 e2 = Ok (ctx_sub_fixed B digits_ub p m s1 e1 s2 e2)).
+Proof.
+  intros B HB du Hdu p m s1 e1 s2 e2 Hp. split; intros H.
+  - exact (ctx_add_fix_eq_old B HB du Hdu p m s1 e1 s2 e2 Hp H).
+  - exact (ctx_sub_fix_eq_old B HB du Hdu p m s1 e1 s2 e2 Hp H).
+Qed.
+Print Assumptions C03_add_sub_repair_is_conservative.
+
+Theorem C03_mul_sqr_cubic_repaired_any_length : forall B, 2 <= B -> forall p m s1 e1 s2 e2, 1 <= p ->
+  rounded_sum B p m (s1 * s2) (e1 + e2) (ctx_mul_fix B p m s1 e1 s2 e2) /\
+  rounded_sum B p m (s1 * s1) (2 * e1) (ctx_sqr_fix B p m s1 e1) /\
+  rounded_sum B p m (s1 * s1 * s1) (3 * e1) (ctx_cubic_fix B p m s1 e1).
+Proof.
+  intros B HB p m s1 e1 s2 e2 Hp. split; [|split].
+  - exact (ctx_mul_fix_correct B HB p m s1 e1 s2 e2 Hp).
+  - exact (ctx_sqr_fix_correct B HB p m s1 e1 Hp).
+  - exact (ctx_cubic_fix_correct B HB p m s1 e1 Hp).
+Qed.
+Print Assumptions C03_mul_sqr_cubic_repaired_any_length.
+
+Theorem C03_mul_repair_is_conservative : forall B, 2 <= B -> forall p m s1 e1 s2 e2, 1 <= p ->
+  (mul_long_class B p s1 s2 = false -> ctx_mul_fix B p m s1 e1 s2 e2 = ctx_mul B p m s1 e1 s2 e2) /\
+  (sqr_long_class B p s1 = false -> ctx_sqr_fix B p m s1 e1 = ctx_sqr B p m s1 e1) /\
+  (cubic_long_class B p s1 = false -> ctx_cubic_fix B p m s1 e1 = ctx_cubic B p m s1 e1).
+Proof.
+  intros B HB p m s1 e1 s2 e2 Hp. split; [|split]; intros H.
+  - exact (ctx_mul_fix_eq_old B HB p m s1 e1 s2 e2 Hp H).
+  - exact (ctx_sqr_fix_eq_old B HB p m s1 e1 Hp H).
+  - exact (ctx_cubic_fix_eq_old B HB p m s1 e1 Hp H).
+Qed.
+Print Assumptions C03_mul_repair_is_conservative.
+
+Theorem C03_div_repaired_any_length : forall B, 2 <= B -> forall p m s1 e1 s2 e2, 1 <= p -> s2 <> 0 ->
+  let j := div_excess B p s1 s2 in
+  let k := repr_div_shift B p s1 (s2 * B ^ j) in
+  0 <= j /\ 0 <= k /\
+  exists a, repr_div_fix B p m s1 e1 s2 e2 = Ok a /\ approx_exp a = e1 - e2 + j - k /\
+    rounded_quot B p m (Z.sgn s2 * (s1 * B ^ k)) (Z.abs s2 * B ^ j) a.
+Proof. exact repr_div_fix_rounded. Qed.
+Print Assumptions C03_div_repaired_any_length.
+
+Theorem C03_div_repair_is_conservative : forall B, 2 <= B -> forall digits_ub digits_lb p m s1 e1 s2 e2, 1 <= p ->
+  (dlen B s1 <= p + dlen B s2 -> repr_div_fix B p m s1 e1 s2 e2 = repr_div B p m s1 e1 s2 e2) /\
+  (div_long_class B p s1 s2 = false -> ctx_div_fix B p m s1 e1 s2 e2 = ctx_div B digits_ub digits_lb p m s1 e1 s2 e2) /\
+  (s2 <> 0 -> ctx_inv_fix B p m s2 e2 = ctx_inv B p m s2 e2).
+Proof.
+  intros B HB du dl p m s1 e1 s2 e2 Hp. split; [|split]; intros H.
+  - exact (repr_div_fix_eq_old B p m s1 e1 s2 e2 Hp H).
+  - exact (ctx_div_fix_eq_old B du dl p m s1 e1 s2 e2 Hp H).
+  - exact (ctx_inv_fix_eq B HB p m s2 e2 Hp H).
+Qed.
+Print Assumptions C03_div_repair_is_conservative.
+
+Theorem C03_div_repaired_panics : forall B m s1 e1 s2 e2 p,
+  repr_div_fix B 0 m s1 e1 s2 e2 = Panic UnlimitedPrecision /\
+  (1 <= p -> repr_div_fix B p m s1 e1 0 e2 = Panic DivideBy0).
+Proof. exact repr_div_fix_panics. Qed.
+Print Assumptions C03_div_repaired_panics.
+
+Theorem C03_repaired_results_normalised : forall B, 2 <= B -> forall digits_ub p m s1 e1 s2 e2,
+  (is_normal B s1 e1 = true -> is_normal B s2 e2 = true ->
+   ctx_add_fix_n B digits_ub p m s1 e1 s2 e2 = bind_approx (ctx_add_fix B digits_ub p m s1 e1 s2 e2) (norm_approx B) /\
+   ctx_sub_fix_n B digits_ub p m s1 e1 s2 e2 = bind_approx (ctx_sub_fix B digits_ub p m s1 e1 s2 e2) (norm_approx B) /\
+   result_normal B (ctx_add_fix_n B digits_ub p m s1 e1 s2 e2) /\ result_normal B (ctx_sub_fix_n B digits_ub p m s1 e1 s2 e2)) /\
+  (ctx_mul_fix_n B p m s1 e1 s2 e2 = norm_approx B (ctx_mul_fix B p m s1 e1 s2 e2) /\
+   ctx_sqr_fix_n B p m s1 e1 = norm_approx B (ctx_sqr_fix B p m s1 e1) /\
+   ctx_cubic_fix_n B p m s1 e1 = norm_approx B (ctx_cubic_fix B p m s1 e1) /\
+   approx_normal B (ctx_mul_fix_n B p m s1 e1 s2 e2) /\ approx_normal B (ctx_sqr_fix_n B p m s1 e1) /\
+   approx_normal B (ctx_cubic_fix_n B p m s1 e1)) /\
+  (result_normal B (repr_div_fix_n B p m s1 e1 s2 e2) /\ result_normal B (ctx_inv_fix_n B p m s2 e2)).
+Proof.
+  intros B HB du p m s1 e1 s2 e2. split; [|split].
+  - exact (ctx_add_sub_fix_n_eq B HB du p m s1 e1 s2 e2).
+  - exact (ctx_mul_fix_n_eq B HB p m s1 e1 s2 e2).
+  - exact (repr_div_fix_n_normal B HB p m s1 e1 s2 e2).
+Qed.
+Print Assumptions C03_repaired_results_normalised.
+
+(** the witnesses of the two former findings, after the repair (and that they are inside the former classes) *)
+Theorem C03_former_witnesses_repaired :
+  (add_short_class 10 2 11 5 1099999 0 Negative = true /\
+   ctx_sub_fix_x 10 2 MZero 11 5 1099999 0 = Ok (AExact 1 0) /\
+   ctx_sub_fix_x 10 2 MZero 11 5 1100001 0 = Ok (AExact (-1) 0) /\
+   ctx_sub_fix_x 10 2 MZero 11 5 10905 2 = Ok (AExact 95 2) /\
+   ctx_sub_fix_x 10 2 MZero 10 2 11 0 = Ok (AInexact 98 1 SubOne) /\
+   ctx_sub_fix_x 10 2 MZero 10 2 11 0 = Ok (ctx_sub_fixed_x 10 2 MZero 10 2 11 0) /\
+   ctx_add_fix_x 10 2 MHalfEven 12345 0 67891 3 = Ok (AInexact 68 6 AddOne)) /\
+  (ctx_mul_fix 10 1 MHalfEven 149 0 1 0 = AInexact 1 2 NoOp /\
+   repr_div_fix 10 1 MHalfEven 149 0 1 0 = Ok (AInexact 15 1 AddOne) /\
+   ctx_sqr_fix 10 1 MHalfEven 123 0 = AInexact 2 4 AddOne /\
+   ctx_cubic_fix 10 1 MHalfEven 1145 0 = AInexact 2 9 AddOne /\
+   repr_div_fix 10 3 MHalfEven 12345678 0 7 0 = Ok (AInexact 176 4 NoOp) /\
+   div_excess 10 3 12345678 7 = 4).
+Proof. split; [exact add_fix_witnesses | exact muldiv_fix_witnesses]. Qed.
+Print Assumptions C03_former_witnesses_repaired.
+
+(** the WHOLE bodies of float/src/{add,mul,div,root}.rs, regenerated on every run, are these models *)
+From Dashu Require Import Float.FixBodiesProof.
+From DashuGen Require Import FloatAddBodies FloatOpBodies.
+
+Theorem C03_add_bodies_regenerated : forall B digits_ub p m s1 e1 s2 e2 sg,
+  (forall sig e low lp is_sub,
+     rrs_gen B p m sig e low lp is_sub = bind_approx (repr_round_sum_fix B p m sig e low lp is_sub) (norm_approx B)) /\
+  (forall fuel rp sig e low lp d,
+     option_map (fun '(s, e', l, k, _) => (s, e', l, k)) (rrs_gen_loop B fuel p m rp sig e low lp d) =
+     expand_loop B fuel p rp sig e low lp d) /\
+  large_small_gen B digits_ub p m s1 e1 s2 e2 sg =
+    bind_approx (repr_add_large_small_fix B digits_ub p m s1 e1 s2 e2 sg) (norm_approx B) /\
+  small_large_gen B digits_ub p m s1 e1 s2 e2 sg =
+    bind_approx (repr_add_small_large_fix B digits_ub p m s1 e1 s2 e2 sg) (norm_approx B) /\
+  ctx_add_gen B digits_ub p m s1 e1 s2 e2 = ctx_add_fix_n B digits_ub p m s1 e1 s2 e2 /\
+  ctx_sub_gen B digits_ub p m s1 e1 s2 e2 = ctx_sub_fix_n B digits_ub p m s1 e1 s2 e2.
+Proof.
+  intros B du p m s1 e1 s2 e2 sg. split; [|split; [|split; [|split; [|split]]]].
+  - intros. apply rrs_gen_eq.
+  - intros. apply rrs_gen_loop_eq.
+  - apply large_small_gen_eq.
+  - apply small_large_gen_eq.
+  - apply ctx_add_gen_eq.
+  - apply ctx_sub_gen_eq.
+Qed.
+Print Assumptions C03_add_bodies_regenerated.
+
+Theorem C03_op_bodies_regenerated : forall B, 2 <= B -> forall p m s1 e1 s2 e2,
+  ctx_mul_gen B p m s1 e1 s2 e2 = ctx_mul_fix_n B p m s1 e1 s2 e2 /\
+  ctx_sqr_gen B p m s1 e1 = ctx_sqr_fix_n B p m s1 e1 /\
+  ctx_cubic_gen B p m s1 e1 = ctx_cubic_fix_n B p m s1 e1 /\
+  repr_div_gen B p m s1 e1 s2 e2 = repr_div_fix_n B p m s1 e1 s2 e2 /\
+  ctx_div_gen B p m s1 e1 s2 e2 = repr_div_fix_n B p m s1 e1 s2 e2 /\
+  ctx_inv_gen B p m s2 e2 = ctx_inv_fix_n B p m s2 e2 /\
+  ctx_sqrt_gen B p m s1 e1 = ctx_sqrt_n B p m s1 e1.
+Proof.
+  intros B HB p m s1 e1 s2 e2.
+  destruct (ctx_mul_gen_eq B p m s1 e1 s2 e2) as (A1 & A2 & A3).
+  destruct (ctx_div_inv_gen_eq B p m s1 e1 s2 e2) as (D1 & D2).
+  split; [exact A1|]. split; [exact A2|]. split; [exact A3|]. split; [apply repr_div_gen_eq|].
+  split; [exact D1|]. split; [exact D2|]. apply ctx_sqrt_gen_eq. exact HB.
+Qed.
+Print Assumptions C03_op_bodies_regenerated.
